@@ -97,6 +97,10 @@ def faults_for(valid, tier, parsed):
             for v in (0x00, 0xff):
                 if v != valid[i]:
                     fs.append(("corrupt", i, v))
+    # short replies made of one repeated byte, every byte value (whitespace, NUL, digits, ...): non-empty is non-empty
+    for b in (range(256) if (tier == "thorough" or not parsed) else [0x00, 0x09, 0x0A, 0x0D, 0x20, 0x30, 0x80, 0xFF]):
+        for n in (1, 2, 3):
+            fs.append(("fill", n, b))
     lens = range(1, 1025) if tier == "thorough" else sorted(set(range(1, 50)) | {75, 76, 77, 81, 84, 92, 100, 101, 106, 107, 108, 255, 256, 511, 512, 1023, 1024})
     for n in lens:
         for b in (FILLS if (parsed or n < 50) else FILLS[:2]):
@@ -111,8 +115,14 @@ def all_cases(tier):
         valid = valid_replies(op)
         for step, k in enumerate(kinds):
             parsed = k.startswith("login") or k in ("get_state1", "get_state2") or (tier == "thorough" and op == "get_schedules")
+            seen_f = set()
             for f in faults_for(valid[step], tier, parsed):
+                if f in seen_f:
+                    continue
+                seen_f.add(f)
                 cases.append({"op": op, "faults": {str(step): list(f)}})
+            # the same end-of-stream fault on a connection that has not yet completed any operation
+            cases.append({"op": op, "faults": {str(step): ["eof"]}, "cold": True})
         for s1, s2 in itertools.combinations(range(len(kinds)), 2):
             for f1 in REDUCED:
                 if f1[0] == "eof":
@@ -134,7 +144,7 @@ class Runner:
         self.clock.__enter__()
         self.w = {}
 
-    def world(self, kind, fresh):
+    def world(self, kind, fresh, cold=False):
         w = self.w.get(kind)
         if w is not None and (fresh or w.dirty):
             w.disconnect()
@@ -145,6 +155,11 @@ class Runner:
             assert w.connect()[0] == "ok"
             w.dirty = False
             self.w[kind] = w
+            if not cold:
+                # a fresh connection first completes one ordinary operation, so that the fault meets a client
+                # that has already logged in successfully once (state kept from that login must not matter)
+                out, _, _ = w.run_op("control_on" if kind == 1 else "set_position")
+                assert out[0] == "ok", out
         return w
 
     def run(self, case):
@@ -164,7 +179,7 @@ class Runner:
                 delivered.append(r)
                 if r is None or len(r) > 1024:
                     needs_fresh = True
-        w = self.world(OPS[op][0], needs_fresh)
+        w = self.world(OPS[op][0], needs_fresh or bool(case.get("cold")), cold=bool(case.get("cold")))
         if needs_fresh:
             w.dirty = True
         out, writes, rx = w.run_op(op, script=script, state2_reply=None)
@@ -280,7 +295,7 @@ def run_job(job):
         for case in cases:
             out, writes, delivered = run.run(case)
             ok = judge(case, out, writes, delivered, res)
-            res.case((case["op"], case["faults"]), nontrivial=ok is not None)
+            res.case((case["op"], case["faults"], case.get("cold")), nontrivial=ok is not None)
             res.counters["fault:" + next(iter(case["faults"].values()))[0]] += 1
             if len(res.samples) < 1 and len(case["faults"]) == 2:
                 res.sample({"case": case, "outcome": out[0] + ":" + type(out[1]).__name__})
